@@ -162,10 +162,12 @@ def to_text(d, rng=None):
         elif k in ('async', 'dynamic'):
             out.append(f'{k}: {"true" if it[1] else "false"}{st.comma()}')
         elif k == 'legacy':
+            # a fourth element 'nocomma' forces the (optional) separator after the entry to be absent
+            sep = '' if (len(it) > 3 and it[3] == 'nocomma') else st.comma()
             if len(it) > 2 and it[2] == 'brace':
-                out.append(f'{it[1]}: {{ }}{st.comma()}')
+                out.append(f'{it[1]}: {{ }}{sep}')
             else:
-                out.append(f'{it[1]}: LegacyIdent{st.comma()}')
+                out.append(f'{it[1]}: LegacyIdent{sep}')
         elif k == 'unknown':
             out.append(f'{it[1]}: Whatever{st.comma()}')
         elif k == 'states':
